@@ -44,7 +44,8 @@ THEOREMS = ['C06_indices_first_fastest', 'C06_items_array',
             'C06_parse_fill_kw_array', 'C06_parse_fill_kw_short_and_shapes',
             'C06_array_entry_transformation_refuted',
             'C06_lattice_end_to_end', 'C06_lattice_end_to_end_3d',
-            'C06_lattice_end_to_end_1d_2d']
+            'C06_lattice_end_to_end_1d_2d', 'C06_lattice_end_to_end_linked',
+            'C06_link_inverse_satisfiable']
 TRUSTED = [
     'hand-written model coq/C06/Model.v (modelled, tied by execution only)',
     'cells, surfaces other than planes and the effect of a transformation on a '
@@ -53,6 +54,13 @@ TRUSTED = [
     'universe and the 12 numbers of filltr; how a 12-number transformation '
     'moves a surface (p -> O + B^T p, MIP transform_frame) is C04\'s subject '
     'and is taken as the definition of apply_tr here',
+    'C06_lattice_end_to_end_linked derives the interface below from C05\'s '
+    'theorems over C05\'s model (cell_transform_den, pot_fill_located); what '
+    'remains assumed there: C05\'s sense/key laws (C04), inv = inverse of the '
+    'C06 point map on the produced transformations (satisfiable: '
+    'C06_link_inverse_satisfiable), the universe list of the lattice holds '
+    'the element cells, side conditions of pot_fill_located on the developed '
+    'table',
     'C06_lattice_end_to_end: what cell_transform and pot_fill do with the '
     'cells develop_lattice generates (region = image under apply_tr; volume = '
     'container region /\\ image of each leaf cell of the fill universe under '
